@@ -585,7 +585,10 @@ impl BatchSemaphore {
 
         match self.fairness {
             Fairness::StrictlyFair => {
-                if index == 0 {
+                // When the execution is over and the `Acquire`s of its unfinished tasks are being
+                // dropped, the task list is gone: there is nobody left to hand the permits to.
+                let in_cleanup = ExecutionState::try_with(|s| s.in_cleanup()).unwrap_or(false);
+                if index == 0 && !in_cleanup {
                     // If the semaphore is strictly fair, and we removed the first waiter, check if its
                     // removal unblocks remaining waiters.  This can happen in the following situation:
                     // - the semahore has 1 permit available
